@@ -246,7 +246,7 @@ def run(prog, chk):
     av = jfn(prog, J + "appendVariant")
     tags = R._enum_values(prog, "Variant::")
     tags = {k: v for k, v in tags.items() if k.endswith("Type")}
-    kt = dispatch_key(av, lambda t: re.fullmatch(r"\w+\.getType\(\)", t) is not None)
+    kt = dispatch_key(av, lambda t: re.fullmatch(r"\w+\.(getType\(\)|data->type)", t) is not None)
     if kt:
         have, nb = handled(av, kt, sorted(tags.values()), 10 ** 6)
         # the null alternative may legitimately share the fall-back arm (it prints `null`): it counts as handled when the fall-back arm emits something
